@@ -64,7 +64,7 @@ def atoms_of(cond, truth=True):
             else:
                 # disjunction: keep as one opaque atom
                 parts = sorted(
-                    [tuple(sorted(map(repr, atoms_of(v, truth)))) for v in cond.values])
+                    [tuple(sorted(atoms_of(v, truth), key=repr)) for v in cond.values], key=repr)
                 out.add(("or", tuple(parts)))
         return out
     if isinstance(cond, ast.Compare):
@@ -111,7 +111,10 @@ def atom_paths(atom):
             for y in x:
                 if isinstance(y, tuple):
                     for z in y:
-                        paths |= _paths_in_repr(z)
+                        if isinstance(z, tuple):
+                            paths |= atom_paths(z)
+                        else:
+                            paths |= _paths_in_repr(str(z))
     return paths
 
 
@@ -311,6 +314,11 @@ def negate(atom):
 def contradicts(atoms, assumed):
     """Does some atom contradict an assumed atom?"""
     for a in atoms:
+        if a[0] == "or":
+            # a disjunction is contradicted when every disjunct is
+            if a[1] and all(d and contradicts(set(d), assumed) for d in a[1]):
+                return True
+            continue
         n = negate(a)
         if n is None:
             continue
